@@ -33,6 +33,10 @@ def teval(t: Term, env: dict):
         return ev(a[1]) if ev(a[0]) else ev(a[2])
     if op == "not":
         return not ev(a[0])
+    if op == "neg":
+        return -ev(a[0])
+    if op == "inv":
+        return ~ev(a[0])
     if op == "truth":
         return bool(ev(a[0]))
     if op == "and":
